@@ -237,12 +237,12 @@ def effects(body, prov=None):
             pl = s["pl"]
             if not pl["p"]:
                 continue
-            tgt = prov.place(pl)
+            tgt = prov.lplace(pl)
             out.append({"kind": "assign", "target": tgt, "value": prov._rvalue(s["rv"], True), "callee": None, "bb": bi, "sp": s.get("sp")})
         t = blk["t"]
         if t["k"] == "call":
             if t.get("dest") and t["dest"]["p"]:
-                out.append({"kind": "calldest", "target": prov.place(t["dest"]), "value": prov._call(t, True),
+                out.append({"kind": "calldest", "target": prov.lplace(t["dest"]), "value": prov._call(t, True),
                             "callee": callee_name(t), "bb": bi, "sp": t.get("sp")})
             for a in t["args"]:
                 pl = op_place(a)
